@@ -9,7 +9,8 @@ IRIS = ["http://ex.org/a", "http://ex.org/b", "http://ex.org/ns#x", "http://ex.o
         "urn:nosep", "", "http://ex.org/", "http://ex.org/ns#", "http://é.org/ü#ñ", "a/b#c/d", "#", "/"]
 LEX = ["", "x", "hello world", "ünï", "1", "\n", '"q"']
 LANGS = ["en", "pl", "en-GB"]
-DTS = [XSD + "integer", XSD + "string", "http://ex.org/dt#a", "urn:dt", XSD + "date"]
+DTS = [XSD + "integer", XSD + "string", "http://ex.org/dt#a", "urn:dt", XSD + "date", XSD + "double", XSD + "boolean",
+       "http://ex.org/dt#b", "http://ex.org/dt#c", XSD + "gYear"]
 BN = ["b0", "b1", "", "ü"]
 
 
